@@ -8,6 +8,8 @@ import (
 	"encoding/json"
 	"fmt"
 	"os"
+
+	_ "verif/engine/vfmodel" // models interpreted by the engine in place of reflection-based std functions
 )
 
 type Failure struct {
